@@ -209,10 +209,17 @@ struct OrgGray1  { using image_t = gil::bit_aligned_image1_type<1, gil::gray_lay
     template <typename P> static long val(P const& p) { return (long)gil::at_c<0>(p); }
     // image<...>::image(w, h, const Pixel&) of a bit-aligned image takes a bit_aligned_pixel_reference: build one over a local byte
     template <typename F> static void with_px(int v, F f) { unsigned char byte = (unsigned char)(v & 1); image_t::view_t::reference r(&byte, 0); f(r); } };
+#ifdef C10_NO_ELEM   // image<E> with a non-trivial element does not compile on this tree (compile probe): histories over it report err:no-compile
+struct OrgElem   { using image_t = gil::image<int, false, AllocT>; static constexpr bool elem = true; static constexpr long vmask = 0x7fffffff;
+    static int mk(int v) { return v; }    // elements are built inside WithPx (Quiet scope)
+    static long val(int const& e) { return e; } };
+
+#else
 struct OrgElem   { using image_t = gil::image<E, false, AllocT>; static constexpr bool elem = true; static constexpr long vmask = 0x7fffffff;
     static int mk(int v) { return v; }    // elements are built inside WithPx (Quiet scope)
     static long val(E const& e) { return e.v; } };
 
+#endif
 // row start/end byte addresses (all planes), used for `ra` and `fit`
 template <typename It> static void row_span(It b, It e, std::vector<std::pair<const unsigned char*, const unsigned char*>>& out, long& badbit) {
     if constexpr (gil::is_planar<It>::value) {
@@ -251,10 +258,12 @@ template <typename O, typename Img> static std::string slot_obs(std::optional<Im
 }
 
 template <typename O, typename = void> struct WithPx { template <typename F> static void call(int v, F f) { auto p = O::mk(v); f(p); } };
+#ifndef C10_NO_ELEM
 template <> struct WithPx<OrgElem, void> { template <typename F> static void call(int v, F f) {
     E* p; { Quiet q; p = new E(v); }
     try { f(*p); } catch (...) { Quiet q; delete p; throw; }
     { Quiet q; delete p; } } };
+#endif
 template <> struct WithPx<OrgGray1, void> { template <typename F> static void call(int v, F f) { OrgGray1::with_px(v, f); } };
 
 template <typename O, typename Img> static void user_fill(Img& im, int v) { WithPx<O>::call(v, [&](auto const& px) { gil::fill_pixels(gil::view(im), px); }); }
@@ -408,7 +417,11 @@ static std::string handle(std::string const& line) {
     else if (hd[2] == "gray16") { History<OrgGray16> H; r = H.run(ops); }
     else if (hd[2] == "rgb565") { History<OrgRgb565> H; r = H.run(ops); }
     else if (hd[2] == "gray1") { History<OrgGray1> H; r = H.run(ops); }
+#ifdef C10_NO_ELEM
+    else if (hd[2] == "elem") r = "err:no-compile";
+#else
     else if (hd[2] == "elem") { History<OrgElem> H; r = H.run(ops); }
+#endif
     else r = "bad-op:org";
     R.reset();
     return r;
